@@ -73,9 +73,9 @@ theorem bindParams_agree (ps : List String) (vs : List Val) (kwn : List String) 
     (∀ env2, bindParams ps vs kwn kvs env = .ok env2 → ∃ env2', bindParams ps vs kwn kvs env' = .ok env2' ∧
       (∀ y, env y = env' y → env2 y = env2' y) ∧ (∀ y ∈ ps, env2 y = env2' y)) := by
   unfold bindParams
-  by_cases hd : ps.eraseDups.length ≠ ps.length
+  rcases (Bool.eq_false_or_eq_true (distinctS ps)).symm with hd | hd
   · simp [hd]
-  · simp only [hd, if_false]
+  · simp only [hd, Bool.not_true, Bool.false_eq_true, if_false]
     obtain ⟨p1, p2⟩ := bindPos_agree ps vs env env'
     cases h1 : bindPos env ps vs with
     | error e => simp [p1 e h1, bind, Except.bind]
